@@ -6,6 +6,7 @@ import (
 	"fmt"
 	"github.com/go-faster/jx"
 	custom_errors "github.com/metrico/qryn/writer/utils/errors"
+	"math"
 
 	"strconv"
 )
@@ -227,6 +228,8 @@ type zipkinNDDecoderV2 struct {
 
 func (z *zipkinNDDecoderV2) Decode() error {
 	scanner := bufio.NewScanner(z.ctx.bodyReader)
+	// a span may be longer than bufio.MaxScanTokenSize (64 KiB); the array framing has no such limit
+	scanner.Buffer(make([]byte, 0, 64*1024), math.MaxInt)
 	scanner.Split(bufio.ScanLines)
 	for scanner.Scan() {
 		err := z.decodeSpan(scanner.Bytes())
